@@ -1,4 +1,5 @@
 import LK.Generated.GuardsC13
+import LK.Model.Config
 /-!
 # C13 — the collections of the configuration document are written in a canonical order
 1 = sorted, 0 = whatever order the container iterates in (insertion order of a dictionary, hash order of a set).  The theorems of
@@ -17,5 +18,33 @@ theorem component_inputs_sorted : componentInputsOrder = 1 := by decide
 
 /-- aliases are written sorted by name -/
 theorem aliases_sorted : aliasesOrder = 1 := by decide
+
+/-! ### what goes into the document, and when a loaded document is challenged -/
+open LK.Cfg
+
+/-- a parameter receives the builder-level default connection exactly when it has no explicit connection and a default exists … -/
+theorem defaultConnection_iff (unwired hasDefault : Bool) :
+    defaultConnectionBranch unwired hasDefault = 0 ↔ (unwired = true ∧ hasDefault = true) := by
+  cases unwired <;> cases hasDefault <;> simp [defaultConnectionBranch]
+
+/-- … which is the test of the model's `resolve` ("explicit connections first, builder-level defaults otherwise") -/
+theorem resolve_test (defaults : List (String × String)) (c : BComp) (p : String) :
+    ((if (c.edges.map (·.1)).contains p then none else (defaults.find? (·.1 == p)).map (fun d => (p, d.2))).isSome)
+      = (defaultConnectionBranch (!(c.edges.map (·.1)).contains p) (defaults.find? (·.1 == p)).isSome == 0) := by
+  cases h1 : (c.edges.map (·.1)).contains p <;> cases h2 : defaults.find? (·.1 == p) <;> simp [defaultConnectionBranch]
+
+/-- the hash is written exactly when asked for (`config_hash` asks for a document without it, so the hash never covers itself) -/
+theorem hash_written_iff (b : Bool) : includeHashBranch b = 0 ↔ b = true := by cases b <;> simp [includeHashBranch]
+
+/-- a (non-empty) default node name is written -/
+theorem default_written (k : Int) (hk : k ≠ 0) : defaultNodeBranch (some k) = 0 ∧ defaultNodeBranch none = 1 := by
+  simp [defaultNodeBranch, LK.Py.truthy, hk]
+
+/-- a loaded document is challenged exactly when it records a hash, and the warning is raised exactly when the recomputed one differs -/
+theorem challenge_iff (recorded : LK.Py.V) : recordedHashBranch recorded = 0 ↔ recorded.isSome := by
+  cases recorded <;> simp [recordedHashBranch]
+
+theorem mismatch_iff (computed r : Int) : hashMismatchBranch computed (some r) = 0 ↔ computed ≠ r := by
+  simp [hashMismatchBranch]
 
 end LK.Gen.GuardsC13
